@@ -64,6 +64,7 @@ func checkFlagNames(w *World, r *Report, files []*ast.File, info *types.Info) {
 		return
 	}
 	accepted := map[string]string{} // name -> flag constant
+	dispA := map[string]string{}
 	ast.Inspect(rd.Body, func(n ast.Node) bool {
 		cc, ok := n.(*ast.CaseClause)
 		if !ok {
@@ -78,7 +79,10 @@ func checkFlagNames(w *World, r *Report, files []*ast.File, info *types.Info) {
 			for _, s := range cc.Body {
 				ast.Inspect(s, func(m ast.Node) bool {
 					if as, ok := m.(*ast.AssignStmt); ok && as.Tok == token.OR_ASSIGN && len(as.Rhs) == 1 {
-						accepted[name] = types.ExprString(as.Rhs[0])
+						accepted[name] = flagID(info, as.Rhs[0])
+						if _, seen := dispA[accepted[name]]; !seen {
+							dispA[accepted[name]] = types.ExprString(as.Rhs[0])
+						}
 					}
 					return true
 				})
@@ -87,6 +91,7 @@ func checkFlagNames(w *World, r *Report, files []*ast.File, info *types.Info) {
 		return true
 	})
 	written := map[string]string{} // flag constant -> name
+	disp := map[string]string{}    // flag constant -> how the source spells it
 	ast.Inspect(ex.Body, func(n ast.Node) bool {
 		ifs, ok := n.(*ast.IfStmt)
 		if !ok {
@@ -96,7 +101,10 @@ func checkFlagNames(w *World, r *Report, files []*ast.File, info *types.Info) {
 		flag := ""
 		ast.Inspect(ifs.Cond, func(m ast.Node) bool {
 			if be, ok := m.(*ast.BinaryExpr); ok && be.Op == token.AND {
-				flag = types.ExprString(be.Y)
+				if _, isConst := constInt(info, be.Y); isConst {
+					flag = flagID(info, be.Y)
+					disp[flag] = types.ExprString(be.Y)
+				}
 			}
 			return true
 		})
@@ -114,6 +122,40 @@ func checkFlagNames(w *World, r *Report, files []*ast.File, info *types.Info) {
 		})
 		return true
 	})
+	// table form: for i, name := range TABLE { if flags&(1<<i) != 0 { write(" -" + name) } }
+	ast.Inspect(ex.Body, func(n ast.Node) bool {
+		rs, ok := n.(*ast.RangeStmt)
+		if !ok {
+			return true
+		}
+		keyID, ok1 := rs.Key.(*ast.Ident)
+		tid, ok2 := rs.X.(*ast.Ident)
+		if !ok1 || !ok2 {
+			return true
+		}
+		tbl := pkgStringTable(w, info, tid)
+		if tbl == nil {
+			return true
+		}
+		usesShift := false
+		ast.Inspect(rs.Body, func(m ast.Node) bool {
+			if be, ok := m.(*ast.BinaryExpr); ok && be.Op == token.SHL {
+				if one, ok := constInt(info, be.X); ok && one == 1 {
+					if id, ok := be.Y.(*ast.Ident); ok && info.ObjectOf(id) == info.ObjectOf(keyID) {
+						usesShift = true
+					}
+				}
+			}
+			return true
+		})
+		if !usesShift {
+			return true
+		}
+		for i, nm := range tbl {
+			written[fmt.Sprintf("flag %#x", 1<<uint(i))] = strings.TrimPrefix(strings.TrimSpace(nm), "-")
+		}
+		return true
+	})
 	if len(accepted) < 3 || len(written) < 3 {
 		r.Fatal("flagnames: could not extract the flag tables (accepted %d, written %d)", len(accepted), len(written))
 		return
@@ -125,11 +167,20 @@ func checkFlagNames(w *World, r *Report, files []*ast.File, info *types.Info) {
 	sort.Strings(flags)
 	for _, f := range flags {
 		name := written[f]
-		key := r.MkKey("flagnames", "builder.explainFlags", "flag "+f)
+		show := func(id string) string {
+			if d, ok := disp[id]; ok {
+				return d
+			}
+			if d, ok := dispA[id]; ok {
+				return d
+			}
+			return id
+		}
+		key := r.MkKey("flagnames", "builder.explainFlags", "flag "+show(f))
 		if got, ok := accepted[name]; !ok {
-			r.FailC("flagnames", key, []string{"unparsable"}, w.Pos(ex.Pos()), fmt.Sprintf("the printer writes lookup flag %s as -%s, which the parser does not accept (it accepts %s)", f, name, keysOf(accepted)), nil)
+			r.FailC("flagnames", key, []string{"unparsable"}, w.Pos(ex.Pos()), fmt.Sprintf("the printer writes lookup flag %s as -%s, which the parser does not accept (it accepts %s)", show(f), name, keysOf(accepted)), nil)
 		} else if got != f {
-			r.Fail("flagnames", key, w.Pos(ex.Pos()), fmt.Sprintf("the printer writes %s as -%s, but the parser reads -%s as %s", f, name, name, got), nil)
+			r.Fail("flagnames", key, w.Pos(ex.Pos()), fmt.Sprintf("the printer writes %s as -%s, but the parser reads -%s as %s", show(f), name, name, show(got)), nil)
 		} else {
 			r.OK("flagnames", key, w.Pos(ex.Pos()), "written as -"+name+", parsed back to the same flag")
 		}
@@ -1004,4 +1055,56 @@ func checkLeakWindow(w *World, r *Report) {
 		r.Fail("leakwindow", key, w.Pos(lexCall.Pos()), bad, nil)
 	}
 	r.Floor("leakwindow", 1)
+}
+
+
+// flagID names a lookup-flag expression by its constant value, so that the
+// printer and the parser are compared on the bits, not on how they spell them.
+func flagID(info *types.Info, e ast.Expr) string {
+	if v, ok := constInt(info, e); ok {
+		return fmt.Sprintf("flag %#x", v)
+	}
+	return types.ExprString(e)
+}
+
+// pkgStringTable: the constant strings of a package-level (or local) slice
+// or array literal that id refers to.
+func pkgStringTable(w *World, info *types.Info, id *ast.Ident) []string {
+	obj := info.ObjectOf(id)
+	if obj == nil {
+		return nil
+	}
+	var out []string
+	for _, pkg := range w.All {
+		if pkg.Types != obj.Pkg() {
+			continue
+		}
+		for _, f := range pkg.Syntax {
+			ast.Inspect(f, func(n ast.Node) bool {
+				vs, ok := n.(*ast.ValueSpec)
+				if !ok {
+					return true
+				}
+				for i, nm := range vs.Names {
+					if pkg.TypesInfo.ObjectOf(nm) != obj || i >= len(vs.Values) {
+						continue
+					}
+					cl, ok := vs.Values[i].(*ast.CompositeLit)
+					if !ok {
+						continue
+					}
+					for _, el := range cl.Elts {
+						tv, ok := pkg.TypesInfo.Types[el]
+						if !ok || tv.Value == nil || tv.Value.Kind() != constant.String {
+							out = nil
+							return false
+						}
+						out = append(out, constant.StringVal(tv.Value))
+					}
+				}
+				return true
+			})
+		}
+	}
+	return out
 }
